@@ -204,6 +204,57 @@ func checkPut(k *collector, valid, auto bool, times int, withData int) {
 	}
 }
 
+// nestWriter runs other() inside its at-th Write call, BEFORE it looks at the bytes it was given: the encodings of two
+// messages interleaved at Write granularity on one goroutine. Whatever scratch memory the encoder shares between
+// messages (a package-level buffer, a pool) is overwritten by the inner encoding while the outer one still points at it.
+type nestWriter struct {
+	at, calls int
+	other     func()
+	got       []byte
+}
+
+func (w *nestWriter) Write(p []byte) (int, error) {
+	w.calls++
+	if w.calls == w.at {
+		w.other()
+	}
+	w.got = append(w.got, p...)
+	return len(p), nil
+}
+
+// checkInterleavedEncoding: an original and its clone with every field set differently, each encoded while the
+// other one's encoding is in progress, at every Write position.
+func checkInterleavedEncoding(k *collector) {
+	orig := &sse.Message{ID: sse.ID("orig-1"), Type: sse.Type("first"), Retry: 1500 * time.Millisecond}
+	orig.AppendData("o1", "o2")
+	orig.AppendComment("oc")
+	cl := orig.Clone()
+	cl.ID, cl.Type, cl.Retry = sse.ID("clone-22"), sse.Type("second"), 987654*time.Millisecond
+	cl.AppendData("c3")
+	wantO, wantC := orig.String(), cl.String()
+	probe := &nestWriter{}
+	_, _ = orig.WriteTo(probe)
+	for _, pair := range [][2]*sse.Message{{orig, cl}, {cl, orig}} {
+		outer, inner := pair[0], pair[1]
+		want := wantO
+		if outer == cl {
+			want = wantC
+		}
+		for at := 1; at <= probe.calls+4; at++ {
+			k.cases.Add(1)
+			k.nontriv.Add(1)
+			var innerOut strings.Builder
+			w := &nestWriter{at: at, other: func() { _, _ = inner.WriteTo(&innerOut) }}
+			_, _ = outer.WriteTo(w)
+			if string(w.got) != want {
+				what := fmt.Sprintf("original and clone with different ID/type/retry/data; the other one is encoded inside Write call #%d of this one's WriteTo", at)
+				k.fail("C19: encoding one message changes what another one encodes to", fmt.Sprintf("%s: got %q, want %q", what, w.got, want), what)
+				return
+			}
+		}
+	}
+}
+
 // scripted replayers for checkPublish
 type errReplayer struct{}
 
@@ -295,6 +346,7 @@ var C19 = &sqrun.Check{ID: "C19", QuickBudget: 60, ThoroughBudget: 600,
 				}
 			}
 		}
+		checkInterleavedEncoding(k)
 		for _, rep := range []string{"none", "finite", "valid", "error", "panic"} {
 			for _, auto := range []bool{false, true} {
 				for _, withID := range []bool{false, true} {
@@ -307,7 +359,7 @@ var C19 = &sqrun.Check{ID: "C19", QuickBudget: 60, ThoroughBudget: 600,
 		cov := ev.Coverage{"evaluations": k.cases.Load(), "distinct_nontrivial": k.nontriv.Load(), "exhaustive": k.exhaustive(),
 			"clone_sequences": seqs, "depth": depth,
 			"samples": []any{describeSeq([]uint8{0, 0, 0, 9, 0, 1}), "replayer valid=false autoIDs=true, the same message (3 data lines) put 4 times"},
-			"rule":    fmt.Sprintf("every sequence of <= %d operations from {AppendData, AppendComment, set ID, Clone, UnmarshalText of a new event, ID.UnmarshalText from a buffer the caller reuses} x target message (family of at most 3 messages, clones of clones included), executed on real Messages and on a value model (copied slices); after every step every message must encode exactly like its model. Plus: one message put 1..6 times (0..5 data lines) through FiniteReplayer(2) and ValidReplayer in both ID modes: the caller's message stays byte-identical and unset, returned copies are independent, IDs consecutive, earlier publications keep their IDs (wrap-around of the finite buffer included). Plus: one message published 1..3 times through a real Joe with no replayer, FiniteReplayer, ValidReplayer (both ID modes, with and without an ID of its own, so accepted and rejected), a replayer whose Put fails and one whose Put panics: the caller's message stays byte-identical. What subscribers receive is covered by C04's oracle (IDs live = IDs returned by Put).", depth)}
+			"rule":    fmt.Sprintf("every sequence of <= %d operations from {AppendData, AppendComment, set ID, Clone, UnmarshalText of a new event, ID.UnmarshalText from a buffer the caller reuses} x target message (family of at most 3 messages, clones of clones included), executed on real Messages and on a value model (copied slices); after every step every message must encode exactly like its model. Plus: one message put 1..6 times (0..5 data lines) through FiniteReplayer(2) and ValidReplayer in both ID modes: the caller's message stays byte-identical and unset, returned copies are independent, IDs consecutive, earlier publications keep their IDs (wrap-around of the finite buffer included). Plus: an original and its clone (all fields different) each encoded inside every Write call of the other one's WriteTo (shared scratch memory in the encoder). Plus: one message published 1..3 times through a real Joe with no replayer, FiniteReplayer, ValidReplayer (both ID modes, with and without an ID of its own, so accepted and rejected), a replayer whose Put fails and one whose Put panics: the caller's message stays byte-identical. What subscribers receive is covered by C04's oracle (IDs live = IDs returned by Put).", depth)}
 		return &sqrun.Outcome{Level: "model_checking", Coverage: ev.Coverage(mergeMC(cov, seqs)), Assumptions: []string{"Message has no hidden state beyond what its encoding shows"}}
 	},
 }
